@@ -304,6 +304,15 @@ func (d *Dialer) DialContext(ctx context.Context, urlStr string, requestHeader h
 		}
 	}()
 
+	// Dialers wrapped around the connection (a SOCKS5 proxy dialer, for one)
+	// clear the deadline they used for their own exchange. Arm it again so
+	// that the handshake below cannot outlive the handshake timeout.
+	if deadline, ok := ctx.Deadline(); ok {
+		if err := netConn.SetDeadline(deadline); err != nil {
+			return nil, nil, err
+		}
+	}
+
 	// Do TLS handshake over established connection if a proxy exists.
 	if proxyURL != nil && u.Scheme == "https" {
 
